@@ -27,7 +27,10 @@ R = Rules(
         "from the concatenated stream does not depend on chunk boundaries.  Run-time chunking is not exercised.  "
         "Shape independence: the codec evaluator forks on conditional expressions, folds divmod / power-of-two division, "
         "immutable module-level tables and unrolls `for` over constant sequences; a framing loop that was split into a loop "
-        "and a step function is put back together by exact inlining at loop level (return -> rest of the iteration; continue), "
+        "and step / per-frame function(s) -- wherever the iteration was cut: before the sizing, after the cut, after the decoding -- is put back "
+        "together by exact inlining at loop level (return -> rest of the iteration; continue), so that an abort-and-return which only leaves "
+        "the per-frame function shows as what it is for the loop (the next frame is processed after Abort); the frame decoded is followed back "
+        "to the statement that cut it from the spool, the advance may stand before or after the decoding; "
         "tests on locals that were just assigned a constant are decided at the assignment; locals are replaced by their unique "
         "reaching definition only while the attributes they read are not stored again; constructor keywords and attribute "
         "assignments on a fresh Message are the same fact."
@@ -727,12 +730,34 @@ def _frame_loop(ctx):
     L = _Loop()
     fi0 = prog.func(TCP + "TcpConnection.data_received")
 
-    def has_sizing(f):
-        return any(_callee_is(prog, f, c, "aiocoap.transports.tcp._extract_message_size") for c in calls_in(f.node))
+    def calls_to(f, qn):
+        return [c for c in calls_in(f.node) if _callee_is(prog, f, c, qn)]
 
-    # the framing loop may have been split into a loop and a step function
-    # (`while self._step(): pass`): the rules look at the loop put back together
-    fi, fused = K.fuse(prog, fi0, has_sizing)
+    def has_sizing(f):
+        return bool(calls_to(f, "aiocoap.transports.tcp._extract_message_size"))
+
+    def has_decoding(f):
+        return bool(calls_to(f, "aiocoap.transports.tcp._decode_message"))
+
+    def has_dispatch(f):
+        return any(isinstance(c.func, ast.Attribute) and c.func.attr == "_dispatch_incoming" for c in calls_in(f.node))
+
+    def has_signalling(f):
+        return any(True for _ in find("self._process_signaling($*a)", f.node))
+
+    # the framing loop may have been split into a loop and step function(s), at any
+    # point of the iteration: `while self._step(): pass` (sizing, gates, decoding and
+    # dispatch in the step), or the loop keeps the framing and hands each frame to a
+    # per-frame function (decoding, signalling, CSM gate and dispatch there).  The
+    # rules look at the loop put back together -- for every anchor of the iteration,
+    # so that what a `return` of such a function means for the *loop* (rest of the
+    # iteration, then the next frame) is what the gates of C15.c/d are decided on.
+    # The sizing must exist; a decode / dispatch / signalling site that exists
+    # nowhere is left to the clauses (floors, C15.h).
+    fi, fused = fi0, []
+    for anchor, required in ((has_sizing, True), (has_decoding, False), (has_dispatch, False), (has_signalling, False)):
+        fi, log = K.fuse(prog, fi, anchor, required=required)
+        fused += log
     if fused:
         ctx.note("data_received: step function(s) %s expanded into the framing loop" % ", ".join(fused))
     # tests on a local that was just assigned a constant (loop flags left behind by
@@ -924,19 +949,42 @@ def c(ctx):
         if is_adv:
             advances.append(nid)
     ctx.ob("the chunk is appended to the spool", len(appends) == 1, fi, fi.node, construct="data_received", detail="%d append site(s)" % len(appends))
-    # the frame handed to _decode_message
-    arg = L.dec.args[0]
-    frame = L.at(arg, L.DEC)
+    # the frame handed to _decode_message: the argument, followed back through plain
+    # copies (`frame = S[:n]` ... `m = frame` ... `_decode_message(m)`) to the statement
+    # that takes the bytes out of the spool -- the *cut*.  The copies are snapshots: the
+    # value is the one the expression had at the cut (locals in it resolved there), no
+    # matter whether the spool is advanced before or after the frame is decoded.
+    frame_e, S = L.dec.args[0], L.DEC
+    for _ in range(8):
+        w = _def_stmt(fi, cfg, frame_e, S) if isinstance(frame_e, ast.Name) else None
+        v = None
+        if isinstance(w, ast.Assign) and len(w.targets) == 1:
+            t = w.targets[0]
+            if isinstance(t, ast.Name):
+                v = w.value
+            elif isinstance(t, (ast.Tuple, ast.List)) and isinstance(w.value, (ast.Tuple, ast.List)) and len(t.elts) == len(w.value.elts) \
+                    and not any(isinstance(x, ast.Starred) for x in list(t.elts) + list(w.value.elts)):
+                idx = [i for i, x in enumerate(t.elts) if isinstance(x, ast.Name) and x.id == frame_e.id]
+                v = w.value.elts[idx[0]] if len(idx) == 1 else None
+        elif isinstance(w, ast.AnnAssign) and isinstance(w.target, ast.Name):
+            v = w.value
+        if v is None:
+            break
+        frame_e, S = v, cfg.loc1(w)
+    frame = L.at(frame_e, S)
     ok = match("self._spool[:TOTAL__]", frame) is not None or match("self._spool[0:TOTAL__]", frame) is not None
     ctx.ob("the frame decoded is the first tokenoffset + tkl + length bytes of the spool", ok, fi, L.dec, detail="frame resolves to %s" % _txt(frame))
-    w = _def_stmt(fi, cfg, arg, L.DEC)
-    S = cfg.loc1(w) if w is not None and not isinstance(w, str) else L.DEC
     store_nodes = {cfg.loc1(st) for _, st in spool_stores}
     region = cfg.reach({L.E}, avoid={L.E, S})
     # (a store in the cutting statement itself happens after its right-hand side was evaluated)
     dirty = [n for n in store_nodes if n in region and n != S and S in cfg.reach({n}, avoid={L.E})]
     ctx.ob("the spool is not modified between sizing it and cutting the frame", not dirty, fi, cfg.nodes[dirty[0]].ast if dirty else L.dec)
-    ctx.ob("after a frame is decoded the spool is advanced before the next frame is sized", bool(advances) and cfg.must_pass(L.DEC, advances, to=L.E), fi, L.dec,
+    # every round trip sizing -> decoding -> sizing passes an advance (before or after the
+    # decoding: the decoder works on the cut, not on the spool): there is no advance-free
+    # path from the sizing to the decoding that continues advance-free to the next sizing
+    adv = set(advances)
+    unadvanced = L.DEC in cfg.reach({L.E}, avoid=adv | {L.E}, skip_labels=("exc",)) and L.E in cfg.reach({L.DEC}, avoid=adv, skip_labels=("exc",))
+    ctx.ob("after a frame is decoded the spool is advanced before the next frame is sized", bool(advances) and not unadvanced, fi, L.dec,
            detail="%d advance site(s)" % len(advances))
     twice = [a for a in advances if cfg.reach({a}, avoid={L.E}) & set(advances)]
     ctx.ob("the spool is advanced at most once per frame", not twice, fi, cfg.nodes[twice[0]].ast if twice else L.dec)
@@ -1996,6 +2044,76 @@ R.seed("C15.d", F_TCP, "                self.abort(\"Overly large message announ
 R.seed("C15.d", F_TCP, "            if self._remote_settings is None:\n                self.abort(\"No CSM received\")\n                return\n", "", "CSM gate dropped")
 R.seed("C15.d", F_TCP, "            except error.UnparsableMessage:\n", "            except error.BadRequest:\n", "parse errors not caught")
 R.seed("C15.d", F_TCP, "                self.abort(\"Failed to parse message\")\n                return\n", "                return\n", "unparsable frame silently dropped")
+# C15.d over a framing loop that was split into loop + per-frame function: what a
+# `return` of that function means is decided for the loop, not for the function
+_ITER_TAIL = (
+    "            msg = self._spool[:msglen]\n"
+    "            try:\n"
+    "                msg = _decode_message(msg)\n"
+    "            except error.UnparsableMessage:\n"
+    "                self.abort(\"Failed to parse message\")\n"
+    "                return\n"
+    "            msg.remote = self\n"
+    "\n"
+    "            self.log.debug(\"Received message: %r\", msg)\n"
+    "\n"
+    "            self._spool = self._spool[msglen:]\n"
+    "\n"
+    "            if msg.code.is_signalling():\n"
+    "                try:\n"
+    "                    self._process_signaling(msg)\n"
+    "                except rfc8323common.CloseConnection as e:\n"
+    "                    self._ctx._dispatch_error(self, e.args[0])\n"
+    "                    self._transport.close()\n"
+    "                continue\n"
+    "\n"
+    "            if self._remote_settings is None:\n"
+    "                self.abort(\"No CSM received\")\n"
+    "                return\n"
+    "\n"
+    "            self._ctx._dispatch_incoming(self, msg)\n"
+)
+
+
+def _per_frame(unparsable, no_csm, done):
+    return (
+        "    def _one_frame(self, chunk):\n"
+        "        try:\n"
+        "            msg = _decode_message(chunk)\n"
+        "        except error.UnparsableMessage:\n"
+        "            self.abort(\"Failed to parse message\")\n"
+        "            return%s\n"
+        "        msg.remote = self\n"
+        "        if msg.code.is_signalling():\n"
+        "            try:\n"
+        "                self._process_signaling(msg)\n"
+        "            except rfc8323common.CloseConnection as e:\n"
+        "                self._ctx._dispatch_error(self, e.args[0])\n"
+        "                self._transport.close()\n"
+        "            return%s\n"
+        "        if self._remote_settings is None:\n"
+        "            self.abort(\"No CSM received\")\n"
+        "            return%s\n"
+        "        self._ctx._dispatch_incoming(self, msg)\n"
+        "        return%s\n"
+    ) % (unparsable, done, no_csm, done)
+
+
+R.seed("C15.d", F_TCP, _ITER_TAIL,
+       "            chunk = self._spool[:msglen]\n            self._spool = self._spool[msglen:]\n            self._one_frame(chunk)\n\n" + _per_frame("", "", ""),
+       "per-frame function: abort-and-return only leaves the function, the loop goes on with the frames behind the bad one")
+R.seed("C15.d", F_TCP, _ITER_TAIL,
+       "            chunk = self._spool[:msglen]\n            self._spool = self._spool[msglen:]\n            if not self._one_frame(chunk):\n                return\n\n" + _per_frame(" False", " True", " True"),
+       "per-frame function reports 'go on' after the No-CSM Abort")
+R.seed("C15.d", F_TCP, _ITER_TAIL,
+       "            chunk = self._spool[:msglen]\n            self._spool = self._spool[msglen:]\n            if chunk:\n                if self._one_frame(chunk):\n                    return\n\n" + _per_frame(" False", " False", " True"),
+       "per-frame function (called inside an if): the loop stops after a good frame and goes on after an aborted one")
+R.seed("C15.c", F_TCP, _ITER_TAIL,
+       "            self._spool = self._spool[msglen:]\n            chunk = self._spool[:msglen]\n            if not self._one_frame(chunk):\n                return\n\n" + _per_frame(" False", " False", " True"),
+       "frame cut after the spool was advanced (the bytes of the next frame are decoded)")
+R.seed("C15.c", F_TCP, _ITER_TAIL,
+       "            chunk = self._spool[:msglen]\n            if not self._one_frame(chunk):\n                return\n\n" + _per_frame(" False", " False", " True"),
+       "per-frame function, spool never advanced")
 # C15.e
 R.seed("C15.e", F_TCP, "        raise error.UnparsableMessage(\"Overly long token\")", "        raise ValueError(\"Overly long token\")", "foreign exception from _decode_message")
 R.seed("C15.e", F_OPT, "                raise UnparsableMessage(\"Option announced but absent\")", "                raise IndexError(\"Option announced but absent\")", "foreign exception from option parsing")
